@@ -37,7 +37,14 @@ META_PART = (
     "were refuted before the repair of _clamp_speed / _check_duration in the project; the extracted model is run "
     "against the real class on every op of a speeds x durations alphabet from 10 seed states, exhaustive op pairs, a "
     "constructor table and seeded random histories, comparing outcome, return value, every attribute, recorded sleeps and "
-    "level events per op."
+    "level events per op. BINARY64 (Host/DCMotorFloat.v: ramp() with its four rounded operations per step, fl53): |speed| <= 1 is an exact "
+    "inequality - C19_ramp_binary64_stored_in_unit (every speed the real algorithm stores is in [-1,1] for every start, step value and step: the "
+    "clamp in set_speed does it), C19_ramp_binary64_raw_overshoots_refuted (the raw 20th point from -0.95 to 1 is 1 + 2^-52: a ramp that bypasses "
+    "the clamp breaks the invariant), C19_ramp_binary64_raw_end_near / _ends_near_target (raw and stored end within 2^-49 of the clamped target: "
+    "'to float rounding'), C19_ramp_binary64, C19_motor_inv_step_binary64 / _inv_reachable_binary64 / _history_events_binary64 / "
+    "_failed_call_atomic_binary64 (the invariant and the per-level clauses after every history of the class as CPython runs it); the extracted "
+    "binary64 model is compared BIT FOR BIT (no tolerance) with the real class on every start k/100 and k/1000, seeded random binary64 starts, "
+    "ramps to and one ulp / far past both limits, repeated ramps and run_for / ramp / invert chains, and the random streams."
 )
 
 H = Fr(1, 2)
@@ -66,11 +73,16 @@ def oracle(ctx, st, case, r, safety_only=False):
         if s is None or a is None or invd[0] != "b" or mode[0] != "s":
             ctx.fail(f"{at}: getters do not return finite float / finite float / bool / str", label, "typed getters", get, key="motor-types")
             return False
-        if not S.le(abs(s), 1.0):
-            ctx.fail(f"{at}: |speed| > 1", label, "|speed| <= 1", float(s), key="motor-speed-bound")
+        # the invariant clauses are EXACT inequalities / equalities on the binary64 values the object holds: no tolerance
+        # (an excursion of one ulp - 1.0000000000000002 - is |speed| > 1)
+        if not abs(s) <= 1.0:
+            ctx.fail(f"{at}: |speed| > 1 (speed = {s!r}, exact comparison)", label, "|speed| <= 1", repr(float(s)), key="motor-speed-bound")
             return False
         want = -s if invd[1] else s
-        if not S.close(a, want):
+        if not abs(a) <= 1.0:
+            ctx.fail(f"{at}: |applied speed| > 1 (applied = {a!r}, exact comparison)", label, "|applied speed| <= 1", repr(float(a)), key="motor-speed-bound")
+            return False
+        if not a == want:
             ctx.fail(f"{at}: applied speed is not the speed{' negated' if invd[1] else ''} (inverted={invd[1]})", label, float(want), float(a), key="motor-applied")
             return False
         want_mode = "drive" if a != 0 else ("brake" if ghost_stop else "coast")
@@ -101,6 +113,19 @@ def oracle(ctx, st, case, r, safety_only=False):
             return
         evs = S.i_events(rs["events"])
         sleeps = [e[1][1] for e in evs if e[0] == "sleep" and e[1][0] == "f"]
+        # every level the call drove the motor at (each intermediate ramp step, the run_for speed): the same exact clauses
+        for e in evs:
+            if e[0] != "lvl":
+                continue
+            st.oracle_checks += 1
+            lv = [x[1] if x[0] == "f" else None for x in e[1:3]]
+            if lv[0] is None or lv[1] is None or not (abs(lv[0]) <= 1.0 and abs(lv[1]) <= 1.0):
+                ctx.fail(f"{at}: during the call the motor was driven at speed {lv[0]!r} / applied speed {lv[1]!r}: outside [-1, 1] (exact comparison)",
+                         label, "|speed| <= 1 and |applied speed| <= 1 at every step", [repr(x) for x in lv], key="motor-speed-bound")
+                return
+            if abs(lv[1]) != abs(lv[0]):
+                ctx.fail(f"{at}: during the call the applied speed {lv[1]!r} was not +-speed {lv[0]!r}", label, "applied = +-speed", [repr(x) for x in lv], key="motor-applied")
+                return
         numeric = all(S.fnum(a) is not None for a in op[1:])
         if ok and op[0] == "ramp" and numeric and not safety_only:
             target = max(-1.0, min(1.0, S.fnum(op[1])))
@@ -119,7 +144,7 @@ def oracle(ctx, st, case, r, safety_only=False):
                 ctx.fail(f"{at}: ramp steps are not monotone from the start speed towards the target", label,
                          "monotone", [float(x) for x in seq], key="ramp-monotone")
                 return
-            if not S.close(end, target) or not S.close(speeds[-1], target):
+            if abs(end - target) > 1e-12 or abs(speeds[-1] - target) > 1e-12:      # "to float rounding": proved <= 2^-49 for the real algorithm
                 ctx.fail(f"{at}: ramp does not end at the clamped target", label, float(target), float(end), key="ramp-target")
                 return
             if len(sleeps) != len([e for e in evs if e[0] == "sleep"]) or not S.le(sum(sleeps), dur):
@@ -226,6 +251,81 @@ def random_seq(rng, decimal=False):
     return ops
 
 
+def F(x):
+    """the exact value of the binary64 number nearest to x (what CPython holds for the literal)"""
+    return Fr(float(x))
+
+
+# streams whose cases are ALSO run through the binary64 model (Host/DCMotorFloat.v: mstep_fl) and compared EXACTLY
+FLOAT_STREAMS = {"float-over-ulp", "float-grid-100", "float-grid-1000", "float-interior", "float-chain", "float-random-start", "random-decimal", "random", "random-long"}
+
+
+def float_cases(ctx):
+    """Starts that make the binary64 step arithmetic of ramp() inexact - every k/100 and k/1000 in [-1, 1], seeded random
+    binary64 starts - ramped to and past both limits (float and int targets) and to interior targets, repeated ramps,
+    run_for / ramp / invert chains.  The property quantifies over all of them; ((target-start)/20)*20 != target-start
+    for many, so the raw 20th step leaves [-1, 1] by an ulp and only set_speed's clamp keeps |speed| <= 1."""
+    rng = ctx.rng
+    thorough = ctx.tier == "thorough"
+    out = []
+    durs = [0, 100, Fr(5, 2), 20, F(0.1), 1000, 7]
+    past = [F(1.0), F(-1.0), F(5.0), -2, F(1.0000000000000002), F(-1.0000000000000002), 1, -1, F(1.5)]
+    for k in range(-100, 101):
+        st0 = F(k / 100)
+        for j, t in enumerate(past if thorough else (past[:4] if k % 5 else past[:6])):
+            d = durs[(k + j) % len(durs)]
+            out.append(("float-grid-100", ("motor", PINS, [("set_speed", st0), ("ramp", t, d), ("invert",), ("get_applied_speed",)])))
+        # the same start reached through backward() / an inverted motor / a ramp, not through set_speed
+        if k % 3 == 0:
+            out.append(("float-grid-100", ("motor", PINS, [("invert",), ("backward", F(abs(k) / 100)), ("ramp", 1, 20), ("ramp", F(-1.0), 0)])))
+    inner = [F(0.3), F(-0.7), F(0.1), F(0.0), F(0.999), F(-0.999)]
+    for k in range(-100, 101, 1 if thorough else 7):
+        for t in inner:
+            out.append(("float-interior", ("motor", PINS, [("set_speed", F(k / 100)), ("ramp", t, durs[k % len(durs)]), ("ramp", F(k / 100), 0)])))
+    for k in range(-1000, 1001):
+        st0 = F(k / 1000)
+        for t in (F(1.0), F(-1.0)) + ((F(3.0), -7) if thorough else ()):
+            out.append(("float-grid-1000", ("motor", PINS, [("set_speed", st0), ("ramp", t, durs[k % len(durs)]), ("get_speed",)])))
+    # arguments one ulp (and 2^-40) outside [-1, 1] for every call that takes a speed: the clamp must bite on each path
+    over = [F(1.0000000000000002), F(-1.0000000000000002), F(1 + 2.0 ** -40), F(-1 - 2.0 ** -40), F(0.9999999999999999), F(-0.9999999999999999)]
+    for pre in ([], [("invert",)], [("set_speed", F(0.95))], [("invert",), ("set_speed", F(-0.97))], [("set_speed", F(-1.0))]):
+        for v in over:
+            for d in (0, 20, F(0.1)):
+                out.append(("float-over-ulp", ("motor", PINS, pre + [("run_for", d, v), ("get_speed",)])))
+                out.append(("float-over-ulp", ("motor", PINS, pre + [("ramp", v, d), ("invert",), ("get_applied_speed",)])))
+            out.append(("float-over-ulp", ("motor", PINS, pre + [("set_speed", v), ("invert",), ("get_applied_speed",)])))
+            out.append(("float-over-ulp", ("motor", PINS, pre + [("backward", v), ("invert",), ("ramp", v, 0)])))
+    pool = [F(k / 100) for k in range(-100, 101)] + [F(x) for x in (1 / 3, -2 / 3, 0.1, 0.7, 1e-3, -1e-3, 0.123456789, -0.987654321)]
+    lim = [F(1.0), F(-1.0), 1, -1, F(5.0), F(-5.0), 2, -2, F(1.0000000000000002), F(-1.0000000000000002)]
+    for _ in range(3000 if thorough else 300):
+        ops = [("invert",)] if rng.random() < 0.3 else []
+        ops.append(("set_speed", rng.choice(pool)))
+        for _ in range(rng.randint(2, 7)):
+            x = rng.random()
+            d = rng.choice(durs)
+            if x < 0.45:
+                ops.append(("ramp", rng.choice(lim), d))
+            elif x < 0.65:
+                ops.append(("ramp", rng.choice(pool), d))
+            elif x < 0.75:
+                ops.append(("run_for", d, rng.choice(pool + lim)))
+                ops.append(("ramp", rng.choice(lim), d))
+            elif x < 0.83:
+                ops.append(("invert",))
+            elif x < 0.90:
+                ops.append(("backward", rng.choice(pool)))
+            elif x < 0.95:
+                ops.append(("set_speed", rng.choice(pool)))
+            else:
+                ops.append((rng.choice(["stop", "coast", "get_speed", "get_mode"]),))
+        out.append(("float-chain", ("motor", PINS, ops)))
+    for _ in range(20000 if thorough else 1500):
+        st0 = F(rng.uniform(-1.0, 1.0)) if rng.random() < 0.8 else F(rng.choice([-1, 1]) * (1 - rng.random() * 2 ** -rng.randint(1, 50)))
+        t = rng.choice(lim) if rng.random() < 0.8 else F(rng.uniform(-1.0, 1.0))
+        out.append(("float-random-start", ("motor", PINS, [("set_speed", st0), ("ramp", t, rng.choice(durs)), ("ramp", rng.choice(lim), 0)])))
+    return out
+
+
 def generate(ctx):
     """returns list of (stream, case)"""
     rng = ctx.rng
@@ -255,6 +355,7 @@ def generate(ctx):
         for _ in range(rng.randint(4, 10)):
             ops += random_seq(rng)
         cases.append(("random-long", ("motor", PINS, ops)))
+    cases += float_cases(ctx)
     return cases
 
 
@@ -429,14 +530,27 @@ def run_unit(ctx: C.Ctx) -> dict:
         st.bump(st.streams, s)
     impl = S.run_impl("motor", cases)
     exe = ctx.exes.get(UNIT)
-    model = ctx.model([S.wire_case(c) for c in cases], unit=UNIT) if exe else [None] * len(cases)
-    n_dis = 0
-    for case, r, m in zip(cases, impl, model):
+    rational = [i for i, (s, _) in enumerate(stream_cases) if not s.startswith("float-")]
+    binary64 = [i for i, (s, _) in enumerate(stream_cases) if s in FLOAT_STREAMS]
+    model = [None] * len(cases)
+    model_fl = [None] * len(cases)
+    if exe:
+        for i, m in zip(rational, ctx.model([S.wire_case(cases[i]) for i in rational], unit=UNIT)):
+            model[i] = m
+        # the same class with ramp() in binary64 (wire case 4): compared bit for bit, no tolerance
+        for i, m in zip(binary64, ctx.model([[4] + S.wire_case(cases[i])[1:] for i in binary64], unit=UNIT)):
+            model_fl[i] = m
+    n_dis = n_dis_fl = n_exact = 0
+    for case, r, m, mf in zip(cases, impl, model, model_fl):
         S.account(st, case, r)
         oracle(ctx, st, case, r)
         if m is not None and n_dis < 25:
             if not S.compare_case(ctx, st, case, m, r):
                 n_dis += 1
+        if mf is not None and n_dis_fl < 25:
+            n_exact += len(case[2])
+            if not S.compare_case(ctx, st, case, mf, r, exact=True):
+                n_dis_fl += 1
     spec = specials_cases(ctx.rng, 1500 if ctx.tier == "thorough" else 200)
     n_spec = 0
     for case, r in zip(spec, S.run_impl("motor", spec, real_sleep=True)):
@@ -452,6 +566,7 @@ def run_unit(ctx: C.Ctx) -> dict:
     dist["specials_stream_ops_implementation_only"] = n_spec
     dist["calls_with_ieee_special_floats_compared_with_model_and_judged_by_the_oracle"] = n_x
     dist["fixed_witnesses_replayed_first"] = n_fixed
+    dist["calls_compared_bit_for_bit_with_the_binary64_model"] = n_exact
     return {
         "unit": UNIT,
         "evaluations": st.steps,
@@ -462,7 +577,9 @@ def run_unit(ctx: C.Ctx) -> dict:
                  "range, 20%% boundary, 10%% invalid; a second stream draws speeds from non-dyadic binary64 values such as 0.1, 0.3, 1/3) + "
                  "set_speed / backward / ramp / run_for with speeds in {1/2,-2,0,None,True,-1/8,NaN,inf,-inf} x durations in {NaN,inf,-inf,20,0,-1,5/2,1/1024} "
                  "after 5 prefixes (model with IEEE specials vs class, and oracle) + a table and seeded random histories with NaN / inf / -0.0 / numeric strings / "
-                 "ints beyond the float range as speeds and durations (implementation + oracle only). evaluations = method calls executed on the real objects and compared field by field with the model; "
+                 "ints beyond the float range as speeds and durations (implementation + oracle only) + binary64 streams (compared bit for bit with Host/DCMotorFloat.v): set_speed(k/100); ramp(t, d) for all 201 k and t in "
+                 "{1.0, -1.0, 5.0, -2, +-(1+2^-52), ...}, set_speed(k/1000); ramp(+-1.0, d) for all 2001 k, interior targets, starts reached through backward / inverted motors, seeded random binary64 starts "
+                 "(uniform and within 2^-1..2^-50 of +-1), chains of repeated ramps / run_for / invert / backward over decimal speeds, and every speed-taking call with an argument one ulp and 2^-40 outside [-1, 1] from 5 prefixes. evaluations = method calls executed on the real objects and compared field by field with the model; "
                  "distinct non-trivial = distinct (full state before, call) with a non-getter call that raised, changed state or emitted events."
                  % (len(CTORS), len(FULL), len(QUICK), len(QUICK), len(QUICK), len(FULL), len(FULL), len(QUICK))),
         "samples": samples,
@@ -472,7 +589,7 @@ def run_unit(ctx: C.Ctx) -> dict:
                   "of the finite model use ints, bools, None and dyadic floats; finite durations stay below 2**31 ms (the wait itself is replaced by a recorder, "
                   "see unmodelled)"),
         "unmodelled": [
-            "binary64 rounding: model floats are exact rationals; compared to 1e-9 (a ramp ending 1e-17 away from 0 with mode 'drive' is float rounding, tolerated and counted in float_zero_residue_steps_tolerated)",
+            "binary64 overflow / subnormals: the binary64 model of ramp() (fl53) has an unbounded exponent - it is IEEE-754 binary64 when target - start is 0 or at least 2^-1000 in magnitude and durations are below 2^1000, which is what is generated. The exact-rational model is still compared to 1e-9 on the dyadic streams (there a ramp ending 1e-17 away from 0 with mode 'drive' is float rounding, tolerated and counted in float_zero_residue_steps_tolerated); the binary64 model is compared exactly, the oracle's invariant clauses (|speed| <= 1, |applied| <= 1, applied = +-speed, mode) are exact",
             "-0.0, numeric strings accepted by float() in DCMotor._clamp_speed, other strings and ints beyond the float range: sent to the implementation only, oracle = invariant + atomicity of failing calls (NaN and the infinities are in the model with specials, Host/ActuatorsX.v, for one call after a prefix of ordinary calls; inside longer random histories they too are judged by the oracle only)",
             "the wait itself: the package-level sleep is replaced by a recorder (as tests/test_actuators.py does); in the specials streams and the witness replays the recorder additionally runs the real Reduino.Utils.sleep validation and hands non-finite durations to the real time.sleep. Finite durations beyond what the platform's time.sleep accepts (about 9.2e12 ms = 292 years on CPython/Linux: OverflowError from time.sleep after run_for applied its speed) are not generated and not modelled",
             "DCMotor.__repr__ (debug helper)", "keyword-argument calls (C08's subject); direct writes to the attributes; a patched _RAMP_STEPS <= 0 (the model follows the generated constant)",
@@ -480,7 +597,7 @@ def run_unit(ctx: C.Ctx) -> dict:
         "trusted_base": [
             "harness/gen/c19_motor.py (reads DCMotor._RAMP_STEPS, the default of backward() and the public method signatures from the current source; fail-closed)",
             "harness/impl/c19_motor_impl.py + c19_sm_runner.py (drive the real class; sleeps recorded through Reduino.Actuators.sleep, level events by wrapping DCMotor._apply_speed/stop/coast)",
-            "harness/props/c19_motor.py + harness/c19_sm.py (generators, comparison with 1e-9 float tolerance, oracle)",
+            "harness/props/c19_motor.py + harness/c19_sm.py (generators, comparison with 1e-9 float tolerance for the rational model and bit for bit for the binary64 model, oracle with exact invariant clauses)",
         ],
         "assumptions": ["Python floats behave as exact rationals up to 1e-9 on the generated dyadic inputs (measured by the correspondence)",
                         "the last-command ghost changes only on successful stop/run_for/set_speed/backward/coast/invert/ramp (DESIGN.md A.4; proved for the model as C19_motor_ghost_step, compared per op with the history of real outcomes)",
